@@ -96,3 +96,11 @@ CORPUS += [
         "        dates = torch.tensor([taxon['date'] for taxon in self._taxa], dtype=torch.float64)\n        if dates.min() == 0.0:\n            self.sampling_times = dates\n        else:\n            self.sampling_times = dates.max() - dates\n",
         mode='text', benign=True),
 ]
+CORPUS += [
+    Mut('c06-benign-smooth-max-as-a-method-call', 'torchtree/ops/smooth.py', '', "    return torch.logsumexp(tensor * k, dim=dim, keepdim=keepdim) / k\n", "    return (k * tensor).logsumexp(dim, keepdim=keepdim) / k\n", mode='text', benign=True),
+    Mut('c06-smooth-max-not-divided-back', 'torchtree/ops/smooth.py', '', "    return torch.logsumexp(tensor * k, dim=dim, keepdim=keepdim) / k\n", "    return torch.logsumexp(tensor * k, dim=dim, keepdim=keepdim)\n", mode='text',
+        expect=[('C06.S', 'smooth_max::logsumexp(k·x)/k-along-dim')]),
+    Mut('c06-benign-increment-picked-and-unsqueezed', TH, '', "                + x[..., node - self.taxa_count : (node - self.taxa_count + 1)]", "                + x[..., node - self.taxa_count].unsqueeze(-1)", mode='text', benign=True),
+    Mut('c06-increment-of-the-next-node', TH, '', "                + x[..., node - self.taxa_count : (node - self.taxa_count + 1)]", "                + x[..., node - self.taxa_count + 1 : (node - self.taxa_count + 2)]", mode='text',
+        expect=[('C06.S', 'DifferenceNodeHeightTransform._call::')]),
+]
